@@ -57,6 +57,7 @@ fixed("FX-C06-06", "C06", "32c4673", "Decoder.Decode({\"f\":\"{\\\"A\\\":1}\"}) 
 fixed("FX-C02-05", "C02", "291bc67", "Unmarshal(\"[1e39]\", &[]float32) = nil, [+Inf] (encoding/json: UnmarshalTypeError); was KF-C02-03; literals near a float32 rounding midpoint were rounded twice")
 fixed("FX-C05-02", "C05", "d42b152", "Valid(\"tru\"), Valid(\"nul\") were true and a Decoder fed byte by byte accepted txxx for true: stream literal scanners did not compare the byte delivered by a refill and took the end of input inside a literal for success (was KF-C05-06, KF-C05-07, KF-C18-V06/V07, KF-C09-R02/R03)")
 fixed("FX-C07-04", "C07", "987fef6", "unescapeString formed unsafeAdd(src, 11) beyond the input copy for a high surrogate escape near the end of a document whose copy fills its allocation size class: checkptr 'pointer arithmetic result points to invalid allocation', GC 'invalid pointer' (found by the thorough checkptr runs of C09/C02/C17 after the escape generators were repaired; C07 now enumerates allocation-edge documents in the quick tier)")
+fixed("FX-C05-03", "C05", "a71d371", "UnmarshalWithOption({\"a\":1 x}, &struct{A int}{}, DecodeFieldPriorityFirstWin()) = nil, also {\"a\":1,,,}, {\"a\":1]}, {\"a\":1 \"b\" 2}: first-win mode left through the bracket-matching skipObject once every field had been seen (noticed through seeded change C05b)")
 fixed("FX-C15-01", "C15", "57be1d1", "Decoder fed 5-byte chunks failed on fully \\u-escaped keys")
 
 fixed("FX-C06-04", "C06", "0243e9f", "Compact/Indent of a 100000-deep tower: fatal out of memory / stack overflow (no nesting limit)")
@@ -74,9 +75,9 @@ fixed("FX-C05-01", "C05", "17431c1", "\\u in a struct key accepted any four byte
 fixed("FX-C02-03", "C02", "17431c1", "Decoder.Decode({\"\\ud83dx\":5,\"A\":1}) into a struct failed with 'expected colon after object key' (lone high surrogate in a key moved the cursor too far); two high halves in a row became one U+FFFD")
 
 # ------------------------------------------------------------------ C05
-ALL15 = r"(Valid|Unmarshal:.+|Decode:.+)"
-STREAM = r"(Valid|Decode:.+)"
-SKIPPERS = r"(Valid|Decode:.+|Unmarshal:(struct\{\}|struct\{A\}|\[0\]int|\[1\]iface|RawMessage|Unmarshaler|\[\]RawMessage|map\[string\]Unmarshaler))"
+ALL15 = r"(Valid|Unmarshal(NoEscape|Context|WithOption\(FirstWin\))?:.+|Decode(Context|WithOption\(FirstWin\))?:.+)"
+STREAM = r"(Valid|Decode(Context|WithOption\(FirstWin\))?:.+)"
+SKIPPERS = r"(Valid|Decode(Context|WithOption\(FirstWin\))?:.+|Unmarshal(Context|WithOption\(FirstWin\)):struct\{A\}|Unmarshal:(struct\{\}|struct\{A\}(\(after-options\))?|\[0\]int|\[1\]iface|RawMessage|Unmarshaler|\[\]RawMessage|map\[string\]Unmarshaler))"
 M = "accept-language"
 known("KF-C05-01", "C05", M, ALL15, "ok-vs-err", r"relax=num:parsefloat-grammar",
       'Unmarshal("01"), ("1."), ("-.5"), ("1.e1") succeed',
